@@ -252,6 +252,7 @@ PROPS = {
         "trusted": [], "assumptions": [],
     },
     "C18": {
+        "ext_in_quick": True,
         "lean_targets": ["Pep508.Theorems.C18", "Pep508.Theorems.C18b", "Pep508.Theorems.NonVacuityC"],
         "theorems": ["Pep508.C18.scan_is_rule", "Pep508.C18.rule_url", "Pep508.C18.rule_ambiguous", "Pep508.C18.parse_url_is_rule", "Pep508.parseUrl_total",
                      "Pep508.C18.expand_meets_spec", "Pep508.C18.spec_functional", "Pep508.C18.expand_iff_spec", "Pep508.C18.reference_anywhere",
@@ -298,7 +299,7 @@ PROPS = {
                 "suffixes (none, extras, marker, both, spaced extras, trailing blanks): never accepted as a named requirement and rejected with the unsupported-requirement kind; every outcome "
                 "is compared with the Lean model (looksLikeUnnamed, splitScheme, splitExtras, looksLikeArchive with the std::path extension rules); split_scheme / split_extras are compared "
                 "directly; non-trivial = distinct texts",
-        "trusted": ["the unnamed-requirement parser (feature non-pep508-extensions) is exercised only when the harness is built with that feature (quick and thorough tier of C19, C08, C06; thorough tier of the others)"], "assumptions": [],
+        "trusted": ["the unnamed-requirement parser (feature non-pep508-extensions) is exercised only when the harness is built with that feature (quick and thorough tier of C19, C08, C06, C18; thorough tier of the others)"], "assumptions": [],
     },
 }
 
